@@ -209,6 +209,15 @@ def navigate(node, steps, ns):
     return node
 
 
+# every existing-value site of these files has something to fix and (hand-written text) something to update:
+# the prompts of a review session are therefore fix, then update
+REAL_FIX_ONLY = [
+    ("fix-and-report", ["--inline-snapshot=fix,report"], None),
+    ("review-fix-yes-update-no", ["--inline-snapshot=review"], b"y\nn\nn\nn\n"),
+    ("fix", ["--inline-snapshot=fix"], None),
+]
+
+
 def strip_parens(text):
     return text
 
@@ -267,17 +276,35 @@ def run_shard(args):
         sites = [{"id": i, "op": "eq", "old": txt, "obs": [new], "place": rng.choice(["loop", "helper", "module"])} for i, n, txt, new, g, e in specs]
         src, order = program.build(sites, style="rec", tests=1)
         C["files"] += 1
-        res = inproc.run({"test_a.py": src}, ("fix",))
-        if res.exec_exc:
-            out["inconclusive"].append(f"module failed: {res.exec_exc}")
-            continue
-        if res.crashed():
-            C["crashed"] += 1
-            k = str((res.collect_exc or res.apply_exc)[::2])
-            C["crash_kinds"][k] = C["crash_kinds"].get(k, 0) + 1
-            continue
-        new_src = res.files_after["test_a.py"].decode()
-        wit = {"files": {"test_a.py": src}, "flags": ["fix"]}
+        real_every = {"quick": 12, "thorough": 40}[tier]
+        if c % real_every == real_every - 1:
+            # a real session in which fix is approved and update is shown but not approved
+            from .. import session
+
+            mname, fargs, stdin = REAL_FIX_ONLY[(c // real_every + args.shard) % len(REAL_FIX_ONLY)]
+            proj = session.Project({"test_a.py": src})
+            try:
+                r = session.run_session(proj, fargs, env={"FORCE_COLOR": "true"} if stdin else None, stdin=stdin)
+            finally:
+                proj.close()
+            C["real_sessions_" + mname] = C.get("real_sessions_" + mname, 0) + 1
+            wit = {"files": {"test_a.py": src}, "args": fargs, "stdin": stdin.decode() if stdin else None}
+            if any(a["kind"] == "sessionfinish_exception" for a in r.audit):
+                C["crashed"] += 1
+                continue
+            new_src = r.after.get("test_a.py", b"").decode()
+        else:
+            res = inproc.run({"test_a.py": src}, ("fix",))
+            if res.exec_exc:
+                out["inconclusive"].append(f"module failed: {res.exec_exc}")
+                continue
+            if res.crashed():
+                C["crashed"] += 1
+                k = str((res.collect_exc or res.apply_exc)[::2])
+                C["crash_kinds"][k] = C["crash_kinds"].get(k, 0) + 1
+                continue
+            new_src = res.files_after["test_a.py"].decode()
+            wit = {"files": {"test_a.py": src}, "flags": ["fix"]}
         try:
             args_new, calls_new = program.outer_snapshot_args(new_src)
         except SyntaxError as e:
